@@ -78,6 +78,13 @@ def specials():
         S['lit/case/' + lit] = 'char c;\nvoid main() { switch (c) { case %s: c = 1; } }\n' % lit
         S['lit/asm/' + lit] = 'void main() { asm("NOP", %s); }\n' % lit
         S['lit/csleep/' + lit] = 'void main() { csleep(%s); }\n' % lit
+    # numbers in other syntactic positions: array sizes of parameters, bank numbers, the page-number idiom (tab >> 8) + k
+    for n, t in (('param-neg-array', 'void f(char a[-1], char b) { }\nvoid main() { f(0, 1); }\n'), ('param-neg-array2', 'char g(char b, short w[-3]) { return b; }\nvoid main() { g(1, 0); }\n'),
+                 ('bank-huge-var', 'bank99999999999 char x;\nvoid main() { }\n'), ('bank-huge-func', 'bank99999999999 void f() { }\nvoid main() { f(); }\n'), ('bank-huge-const', 'bank4294967296 const char t[2] = {1, 2};\nvoid main() { }\n'),
+                 ('page-plus-huge', 'const char tab[2]={1,2}; char x; void main(){ x = (tab >> 8) + 16777216; }\n'), ('page-minus-huge', 'const char tab[2]={1,2}; char x; void main(){ x = (tab >> 8) - 16777216; }\n'),
+                 ('page-plus-max', 'const char tab[2]={1,2}; char x; void main(){ x = (tab >> 8) + 2147483647; }\n'), ('page-minus-min', 'const char tab[2]={1,2}; char x; void main(){ x = (tab >> 8) - (0 - 2147483647 - 1); }\n'),
+                 ('utf8-char-const', "char x;\nvoid main() { x = '\u20ac'; x = '\u20ac'; q;}\n"), ('utf8-comment-asm', 'char x; // \u00e9\u00e9\u00e9\u00e9\u00e9\u00e9\nvoid main() { x = 1; q; }')):
+        S['w5/' + n] = t
     for e in ('1/0', '5/(2-2)', '1/0+1', '(1/0)', '1 ? 1/0 : 2', '1 << 40', '1 << -1', '100000*100000', '-2147483647-2', '0x7fffffff+1', '1 >> 99', '!(1/0)', '-(1/0)', '~(1/0)'):
         S['const/init/' + e] = 'const int k = %s;\nvoid main() {}\n' % e
         S['const/size/' + e] = 'char a[%s];\nvoid main() {}\n' % e
